@@ -50,7 +50,8 @@ struct Sink { std::string data; };   // write-only capture (daemon logs)
 struct Ofd {
   int kind = K_FILE;
   int ino = 0;                 // K_FILE / FIFO ends / K_DIRFD
-  std::shared_ptr<Pipe> pipe;  // pipe / fifo ends
+  std::shared_ptr<Pipe> pipe;  // pipe / fifo ends; connected socket: bytes from the peer
+  std::shared_ptr<Pipe> pipe2; // connected socket: bytes to the peer
   std::shared_ptr<Sink> sink;
   long off = 0;
   int flags = 0;               // O_APPEND, O_NONBLOCK, access mode
@@ -201,6 +202,7 @@ struct Kernel {
     if (f->locked) { auto it = lock_holder.find(lock_key(f)); if (it != lock_holder.end() && it->second == o) lock_holder.erase(it); }
     if (f->kind == K_PIPE_R && f->pipe) f->pipe->readers--;
     if (f->kind == K_PIPE_W && f->pipe) f->pipe->writers--;
+    if (f->kind == K_SOCK) { if (f->pipe) f->pipe->readers--; if (f->pipe2) f->pipe2->writers--; }
     if (f->ino) {
       Inode *i = I(f->ino);
       if (i) {
@@ -218,6 +220,12 @@ struct Kernel {
     return 0;
   }
 
+  // a socket becomes connected: two byte streams whose far ends the scenario (the scripted peer) holds
+  void connect_sock(Ofd *f, std::shared_ptr<Pipe> *from_peer, std::shared_ptr<Pipe> *to_peer, size_t cap = 65536) {
+    f->pipe = std::make_shared<Pipe>(); f->pipe->cap = cap; f->pipe->readers = 1; f->pipe->writers = 1; f->pipe->id = ++pipe_seq;
+    f->pipe2 = std::make_shared<Pipe>(); f->pipe2->cap = cap; f->pipe2->readers = 1; f->pipe2->writers = 1; f->pipe2->id = ++pipe_seq;
+    *from_peer = f->pipe; *to_peer = f->pipe2;
+  }
   // readiness as Linux select() reports it
   bool readable(Ofd *f) {
     switch (f->kind) {
@@ -231,6 +239,7 @@ struct Kernel {
         }
         return false;
       }
+      case K_SOCK: return f->pipe && (!f->pipe->buf.empty() || f->pipe->writers <= 0);
       case K_PIPE_W: return f->pipe->readers <= 0;   // no reader left: the error condition is reported in the read set as well (Linux POLLERR)
       default: return false;
     }
@@ -239,6 +248,7 @@ struct Kernel {
     switch (f->kind) {
       case K_FILE: case K_NULL: case K_SINK: return true;
       case K_PIPE_W: { Pipe *p = f->pipe.get(); if (p->readers <= 0) return true; return p->buf.size() < p->cap; }
+      case K_SOCK: { Pipe *p = f->pipe2.get(); if (!p || p->readers <= 0) return true; return p->buf.size() < p->cap; }
       default: return false;
     }
   }
